@@ -49,7 +49,9 @@ fixed("C20", "Réaumur", "degree_Reaumur scale was 4/5 kelvin instead of 5/4 kel
 
 # ------------------------------------------------------------------ recorded findings (genuine, not repaired)
 known("C04", "c04_pi", r"pi:crash:.*", "pi_theorem raises IndexError when every quantity is dimensionless, e.g. pi_theorem({'a': UnitsContainer({})})")
-known("C05", "c05_compare", r"hash:.*", "equal quantities with different hashes where base units differ by count/radian, e.g. Q(1,'Hz') == Q(1,'Bq') but hash differs")
+_FREQ = r"(baud|becquerel|counts_per_second|curie|hertz|kilohertz|revolutions_per_minute|revolutions_per_second|rutherford|minute\^-1|second\^-1)"
+_LUM = r"(candela|lumen|lux|lambert|nit|stilb)"
+known("C05", "c05_compare", rf"hash:({_FREQ}:{_FREQ}|{_LUM}:{_LUM})", "equal quantities with different hashes where base units differ by count/radian, e.g. Q(1,'Hz') == Q(1,'Bq') but hash differs")
 known("C05", "c05_compare", r"trans-delta-offset:.*", "== is not transitive across delta/absolute/offset: delta_degC == K and K == degC but delta_degC vs degC is refused (False)")
 known("C06", "c06_offset", r"floordiv-offset:.*", "//, % and divmod with an offset operand return numbers instead of raising OffsetUnitCalculusError, e.g. Q(100,'degC') // Q(10,'degC')")
 known("C06", "c06_offset", r"operand:array:autoconvert:.*", "array `a *= b` / `a /= b` with b in degC (autoconvert mode) rewrites b to kelvin in place (other.ito_root_units() in _imul_div)")
